@@ -12,6 +12,9 @@ BOUNDS = {
 }
 OUTSIDE = "more steps than the bound; in binary64 arithmetic: non-integer max_volume and volumes needing more steps than stated (Real arithmetic covers them exactly)"
 ASSUMPTIONS = ["(b) assumes |v| <= 1e15 so that integer-valued doubles model Python ints exactly"]
+from fractions import Fraction
+
+HALF_CENT = Fraction(1, 200)   # exact: the float 0.005*n is not the rational n/200
 
 
 def shards(tier):
@@ -139,7 +142,7 @@ def judge(ctx, p, outcome):
         for s in A + D:
             ex = s[5] if s[5] is not None else s[4]
             ctx.prove(ctx.lt(0, ex) if s[5] is not None else ctx.le(0, ex), "C06: emitted step is not positive")
-            ctx.prove(ctx.le(ex if s[5] is not None else ex - 0.005, m), "C06: emitted step exceeds the worklist max_volume")
+            ctx.prove(ctx.le(ex if s[5] is not None else ex - HALF_CENT, m), "C06: emitted step exceeds the worklist max_volume")
         if p["k"] == 1:
             n = len(A)
             if n > 1:
